@@ -585,6 +585,22 @@ func runC15(r *evid.Run) {
 			}
 		}
 	}
+	// an EMPTY regular file in the destination where the source has something that cannot be written into a file: a
+	// symlink, a fifo, a directory, the second name of a linked file
+	{
+		T := fsmodel.T0
+		e := func(p string) fsmodel.Node { return fsmodel.Node{Path: p, Kind: fsmodel.File, Perm: 0644, Mtime: T} }
+		st := fsmodel.Tree{{Path: "k1", Kind: fsmodel.File, Perm: 0644, Mtime: T + 1, HL: 1}, {Path: "k2", Kind: fsmodel.File, Perm: 0644, Mtime: T + 1, HL: 1},
+			{Path: "l", Kind: fsmodel.Symlink, Perm: 0777, Mtime: T + 2, Link: "k1"}, {Path: "p", Kind: fsmodel.Fifo, Perm: 0600, Mtime: T + 3},
+			{Path: "r", Kind: fsmodel.File, Perm: 0644, Mtime: T + 4, Data: []byte("S:r")}, {Path: "d", Kind: fsmodel.Dir, Perm: 0755, Mtime: T}, {Path: "d/x", Kind: fsmodel.File, Perm: 0644, Mtime: T + 5}}
+		st.Sort()
+		dt := fsmodel.Tree{e("k1"), e("k2"), e("l"), e("p"), e("r"), {Path: "d", Kind: fsmodel.Dir, Perm: 0755, Mtime: T}, e("d/x")}
+		for _, sa := range []string{"/", "k2", "l", "p", "r", "d"} {
+			for o := 0; o < 4; o++ {
+				cases = append(cases, c15Case{Src: st, Dst: dt, SrcArg: sa, DstArg: "/", DirC: o&1 != 0, Repl: o&2 != 0})
+			}
+		}
+	}
 	// the destination root reached through a symlink: a file copied to the root, to a name in it, into a directory in it
 	{
 		T := fsmodel.T0
